@@ -5,7 +5,7 @@ from .. import env, coq, runner, gates, tables
 
 LEVEL = 'proof'
 META = dict(
-    text='Coq theorems over a generic commutative ring with unit parameters, hence for every exponent at once: for each of the 18 dispatch branches of the IonQ serializer (x v vi rx y ry z s si t ti rz xx yy zz cnot swap h) the vendor meaning of the emitted gate equals the Cirq gate matrix (regenerated eigen tables) up to an explicit unit factor, for every exponent of the branch class and for all exponents in the rotation branches; the dispatch table regenerated from the working tree (945 rows: special exponents, just inside/outside the 1e-8 window, generic) equals the model decision function; native gpi/gpi2/ms/zz pass their parameters through; pauliexp term strings are little-endian for strings of any length; the measurement-metadata codec round-trips for every key/target list without separators and every chunk size; bit reversal is an involution and both result paths give qubit targets[i] bit targets[i] of the little-endian outcome; the AQT operation list is translated operation by operation into the v1 payload with matrices equal to the Cirq gates up to phase. On every run the REAL payloads of cirq_ionq.Serializer (single, batch, QIS, native) and AQTSampler (_generate_json, v1) for generated circuits are interpreted by the vendor semantics inside Coq and compared up to global phase with the reference unitary; metadata and result conversion are compared exactly with the codec model; unsupported content must raise; Service / Sampler / AQT samplers are run end to end against a stand-in vendor; the Pasqal request body must read back as the resolved circuit. HISTORIES of calls on one sampler / service object (Vendor/History.v: a sampler that keeps nothing, or keeps VALUES, posts at every call the circuit as it is then; one that keeps the caller\'s mutable object does not — refuted with the witness submit / insert in place / submit again — and only in-place mutation can expose it): on every run PasqalSampler, AQTSampler, AQTSamplerLocalSimulator and cirq_ionq.Service / its Sampler (QIS and native) are driven through histories in which the same mutable cirq.Circuit is submitted, edited in place (insert / append / del / setitem / slice assignment / batch_insert / batch_insert_into / batch_replace / batch_remove / clear_operations_touching), submitted again with an equal or another resolver, as a sweep, in a batch, as an equal copy or frozen; every recorded request body is decoded by the vendor gate definitions and must mean the circuit at the time of its call (unitary up to phase, measurement layout, register), and the decoded bodies must equal the history model evaluated in Coq.',
+    text='Coq theorems over a generic commutative ring with unit parameters, hence for every exponent at once: for each of the 18 dispatch branches of the IonQ serializer (x v vi rx y ry z s si t ti rz xx yy zz cnot swap h) the vendor meaning of the emitted gate equals the Cirq gate matrix (regenerated eigen tables) up to an explicit unit factor, for every exponent of the branch class and for all exponents in the rotation branches; the dispatch table regenerated from the working tree (945 rows: special exponents, just inside/outside the 1e-8 window, generic) equals the model decision function; native gpi/gpi2/ms/zz pass their parameters through; pauliexp term strings are little-endian for strings of any length; the measurement-metadata codec round-trips for every key/target list without separators and every chunk size; bit reversal is an involution and both result paths give qubit targets[i] bit targets[i] of the little-endian outcome; the AQT operation list is translated operation by operation into the v1 payload with matrices equal to the Cirq gates up to phase. On every run the REAL payloads of cirq_ionq.Serializer (single, batch, QIS, native) and AQTSampler (_generate_json, v1) for generated circuits are interpreted by the vendor semantics inside Coq and compared up to global phase with the reference unitary; metadata and result conversion are compared exactly with the codec model; unsupported content must raise; Service / Sampler / AQT samplers are run end to end against a stand-in vendor; the Pasqal request body must read back as the resolved circuit. HISTORIES of calls on one sampler / service object (Vendor/History.v: a sampler that keeps nothing, or keeps VALUES, posts at every call the circuit as it is then; one that keeps the caller\'s mutable object does not — refuted with the witness submit / insert in place / submit again — and only in-place mutation can expose it): on every run PasqalSampler, AQTSampler, AQTSamplerLocalSimulator and cirq_ionq.Service / its Sampler (QIS and native) are driven through histories in which the same mutable cirq.Circuit is submitted, edited in place (insert / append / del / setitem / slice assignment / batch_insert / batch_insert_into / batch_replace / batch_remove / clear_operations_touching), submitted again with an equal or another resolver, as a sweep, in a batch, as an equal copy or frozen; every recorded request body is decoded by the vendor gate definitions and must mean the circuit at the time of its call (unitary up to phase, measurement layout, register), and the decoded bodies must equal the history model evaluated in Coq. MEASUREMENTS of AQT circuits (Vendor/AQTMeas.v: a job can say one thing about measuring — all qubits, at the end, in index order, under m; the sampler refuses every circuit holding a measurement operation, whatever it accepts comes back with the meaning of the circuit, the terminal readout of all qubits under m is the only measurement whose circuit means the job of its gates, and posting the gates alone is refuted by seven witnesses: a measurement followed by a gate, another key, a subset, another order, an invert mask, two keys, a middle measurement plus terminal readout): on every run circuits with measurement operations in the middle / first / last, under m or other keys, on subsets, permuted, with invert masks and confusion maps, basis-state and superposition flavours on 1-3 qubits, plus random ones, go through AQTSampler._generate_json + _parse_legacy_circuit_json, AQTSampler.run_sweep (stand-in vendor answering every basis outcome) and AQTSamplerLocalSimulator.run_sweep; each must be refused or return results whose exact joint distribution (keys, columns, probabilities; 600 samples within total variation 0.18 for the local simulator) is that of the circuit\'s own measurement records, branching over the outcomes of measurements in the middle; basis-state cases are compared with the model inside Coq.',
     note='Trusted: Coq kernel; the transcription of the IonQ / AQT gate definitions and of the little-endian conventions (headers of coq/Vendor/IonQ.v, AQT.v); the Python adapters that copy JSON fields and turn angles into unit complex numbers; the float instance (PrimFloat, tolerance 1e-9, 5e-7 when an exponent lies inside the serializer window); the stand-in vendors used for the end-to-end streams follow the same trusted text. Vendor services are not contacted. Field NAMES of the vendor JSON (e.g. `phase` vs `angle` for native zz) are taken as the serializer writes them; only their meaning is checked. Known findings: invert_mask / confusion_map / repeated measurement keys are accepted and altered by the IonQ serializer; AQTSampler does not validate qubit type / index.',
     technique='Rocq/Coq proof over generic-ring gate semantics and list codecs + vm_compute interpretation of real vendor payloads against the reference unitary',
 )
@@ -779,6 +779,10 @@ def replay_discrete(cirq, mods, rep):
         return pasqal_oracle(cirq, mods, rep)
     if kind == 'history':
         return history_oracle(cirq, mods, rep)
+    if kind == 'aqt_meas':
+        holds, outcome, detail = aqt_meas_oracle(cirq, mods, rep)
+        print(f'AQT ({rep["entry"]}): {outcome}' + ('' if holds else f'; {detail}'))
+        return holds
     raise KeyError(kind)
 
 
@@ -1210,7 +1214,10 @@ def aqt_circuit(cirq, case):
         if o.get('sym'):
             res[f'a{i}'] = e
             e = sympy.Symbol(f'a{i}')
-        if f == 'ZPow':
+        if f == 'Meas':
+            cm = {(int(k),): np.array(m, dtype=float) for k, m in (o.get('conf') or [])}
+            g = cirq.MeasurementGate(len(o['w']), key=o['key'], invert_mask=tuple(bool(b) for b in o.get('inv') or ()), confusion_map=cm)
+        elif f == 'ZPow':
             g = cirq.ZPowGate(exponent=e, global_shift=o['s'])
         elif f == 'PhasedX':
             g = cirq.PhasedXPowGate(phase_exponent=o['p'], exponent=e, global_shift=o['s'])
@@ -1499,9 +1506,20 @@ def aqt_reject_oracle(cirq, mods, rep):
     rep['_outcome'] = 'accepted'
     # accepted: the payload must still mean the circuit, on qubits it can name
     qs = sorted(circuit.all_qubits())
-    if not all(isinstance(x, cirq.LineQubit) and x.x >= 0 for x in qs) or not cirq.has_unitary(circuit):
+    if not all(isinstance(x, cirq.LineQubit) and x.x >= 0 for x in qs):
         return False
     n = qs[-1].x + 1
+    if any(isinstance(op.gate, cirq.MeasurementGate) for op in circuit.all_operations()):
+        # the job (gates, then all qubits read out under 'm') must have the distribution of the circuit's own records
+        if [x.x for x in qs] != list(range(n)):
+            return False
+        try:
+            got = {_res_key({'m': row}): p for row, p in aqt_job_dist(v1, n).items()}
+        except Unrecognised:
+            return False
+        return _tv(got, circuit_record_dist(cirq, circuit, n)) <= 1e-6
+    if not cirq.has_unitary(circuit):
+        return False
     ref = cirq.unitary(cirq.Circuit(circuit.all_operations(), cirq.Moment(cirq.I(x) for x in cirq.LineQubit.range(n))))
     try:
         got = np_prog_unitary([np_aqt_gate(op) for op in v1[:-1]], n)
@@ -1527,6 +1545,413 @@ def aqt_reject_stream(ctx, cirq, mods, rounds):
             _disagree(ctx, 'correspondence:aqt_reject', f'{name}', sig,
                          f'unsupported content `{name}` is neither rejected by AQTSampler._generate_json nor kept: the operation list '
                          f'names something else than the circuit', rep)
+
+
+# ---------------------------------------------------------------------------------------------------
+# AQT and the measurements of the submitted circuit (model: coq/Vendor/AQTMeas.v).  An AQT job can say one thing about
+# measuring: every qubit, at the end, in index order, reported under 'm'.  A circuit that holds MeasurementGate operations
+# means the joint distribution of ITS OWN records (key -> bits of the measured qubits in the measurement's order, after
+# confusion map and invert mask, taken where the measurement stands: a measurement in the middle projects the state the
+# later gates act on).  Whatever AQTSampler / AQTSamplerLocalSimulator accept must come back with that meaning; anything
+# else must be refused.  A circuit without measurements is read out by the vendor convention (all qubits under 'm').
+# ---------------------------------------------------------------------------------------------------
+PRE_M = ('From Coq Require Import List Arith Bool NArith.\nFrom VF Require Import Base.Harness Vendor.AQTMeas.\nImport ListNotations.\n')
+AQT_MEAS_LAYOUTS = ['gates_only', 'mid_gate_after', 'mid_m_all_gate_after', 'mid_and_terminal', 'meas_first', 'term_all_m', 'term_other_key',
+                    'term_subset_first', 'term_subset_last', 'term_order', 'term_invert_last', 'term_invert_all', 'term_confusion',
+                    'term_two_keys', 'only_meas']
+AQT_MEAS_ENTRIES = ['payload', 'remote', 'local']
+AQT_LOCAL_REPS = 600
+AQT_LOCAL_TV = 0.18      # 600 samples of <= 8 outcomes: E[TV] <= 0.055, P(TV > 0.18) < exp(-2 * 600 * 0.125^2) ~ 7e-9
+
+
+def _meas(key, w, inv=None, conf=None):
+    return dict(fam='Meas', key=key, w=list(w), inv=list(inv or []), conf=list(conf or []), sym=False)
+
+
+def aqt_meas_fixed_case(n, layout, classical):
+    """prep gates that make the readout distribution unsymmetric under permutations and bit flips, then the layout's measurements."""
+    ops = []
+    if layout != 'only_meas':
+        for w in range(n):
+            ops.append(dict(fam='ZPow', e=0.3, s=0.0, w=[w], sym=False))
+        if classical:
+            ops.append(dict(fam='PhasedX', e=1.0, s=0.0, p=0.25, w=[0], sym=False))
+            if n >= 3:
+                ops.append(dict(fam='XXPow', e=1.0, s=0.0, w=[0, 2], sym=False))
+                ops.append(dict(fam='PhasedX', e=3.0, s=0.0, p=0.5, w=[0], sym=True))
+        else:
+            for w in range(n):
+                ops.append(dict(fam='PhasedX', e=0.3 + 0.13 * w, s=0.0, p=0.1 * w, w=[w], sym=w == 1))
+            if n >= 2:
+                ops.append(dict(fam='XXPow', e=0.25, s=0.0, w=[0, 1], sym=False))
+    allw = list(range(n))
+    after = dict(fam='PhasedX', e=1.0 if classical else 0.5, s=0.0, p=0.0, w=[0], sym=False)
+    if layout == 'gates_only':
+        pass
+    elif layout == 'mid_gate_after':
+        ops += [_meas('mid', [0]), after]
+    elif layout == 'mid_m_all_gate_after':
+        ops += [_meas('m', allw), after]
+    elif layout == 'mid_and_terminal':
+        ops += [_meas('k', [0]), after] + ([dict(fam='XXPow', e=1.0 if classical else 0.5, s=0.0, w=[0, 1], sym=False)] if n >= 2 else []) + [_meas('m', allw)]
+    elif layout == 'meas_first':
+        ops = [_meas('m', allw)] + ops
+    elif layout in ('term_all_m', 'only_meas'):
+        ops += [_meas('m', allw)]
+    elif layout == 'term_other_key':
+        ops += [_meas('z', allw)]
+    elif layout == 'term_subset_first':
+        ops += [_meas('m', [0])]
+    elif layout == 'term_subset_last':
+        ops += [_meas('m', [n - 1])]
+    elif layout == 'term_order':
+        ops += [_meas('m', allw[::-1])]
+    elif layout == 'term_invert_last':
+        ops += [_meas('m', allw, inv=[0] * (n - 1) + [1])]
+    elif layout == 'term_invert_all':
+        ops += [_meas('m', allw, inv=[1] * n)]
+    elif layout == 'term_confusion':
+        ops += [_meas('m', allw, conf=[[0, [[0.0, 1.0], [1.0, 0.0]] if classical else [[0.9, 0.1], [0.25, 0.75]]]])]
+    elif layout == 'term_two_keys':
+        ops += [_meas('a', [0]), _meas('b', allw[1:])]
+    else:
+        raise KeyError(layout)
+    return dict(vendor='aqt', n=n, ops=ops, strat=['E'] * len(ops), layout=layout)
+
+
+def aqt_meas_fixed_cases():
+    for n in (1, 2, 3):
+        for layout in AQT_MEAS_LAYOUTS:
+            if n == 1 and layout in ('term_subset_last', 'term_order', 'term_two_keys'):
+                continue                    # the same circuits as term_all_m on one qubit
+            if n == 1 and layout == 'term_subset_first':
+                continue
+            for classical in (True, False):
+                yield aqt_meas_fixed_case(n, layout, classical)
+
+
+def gen_aqt_meas_case(rng):
+    """Random gates over the accepted vocabulary on wires 0..n-1 with 0-2 measurement operations anywhere among them."""
+    n = rng.randint(1, 3)
+    classical = rng.random() < 0.4
+    body = (gen_aqt_classical(rng) if classical else gen_aqt_case(rng, max_q=n))['ops'][:rng.randint(1, 6)]
+    body = [o for o in body if max(o['w']) < n]
+    for w in range(n):
+        if not any(w in o['w'] for o in body):
+            body.append(dict(fam='ZPow', e=0.5, s=0.0, w=[w], sym=False))
+    ops = list(body)
+    keys = set()
+    for _ in range(rng.choice([0, 0, 1, 1, 1, 1, 2, 2])):
+        key = rng.choice(['m', 'm', 'k', draw_key(rng) or 'e'])
+        if key in keys:
+            continue
+        keys.add(key)
+        w = rng.sample(range(n), rng.randint(1, n)) if rng.random() < 0.7 else list(range(n))
+        inv = [rng.randrange(2) for _ in w] if rng.random() < 0.3 else []
+        conf = [[rng.randrange(len(w)), [[0.0, 1.0], [1.0, 0.0]] if classical else [[0.8, 0.2], [0.3, 0.7]]]] if rng.random() < 0.1 else []
+        pos = len(ops) if rng.random() < 0.5 else rng.randint(0, len(ops))
+        ops.insert(pos, _meas(key, w, inv, conf))
+    return dict(vendor='aqt', n=n, ops=ops, strat=['N' if rng.random() < 0.2 else 'E' for _ in ops], layout='random')
+
+
+def _res_key(d):
+    """{key: bits} -> canonical hashable form"""
+    return tuple(sorted((str(k), tuple(int(b) for b in v)) for k, v in d.items()))
+
+
+def circuit_record_dist(cirq, circuit, n):
+    """Exact joint distribution of the measurement records of `circuit` (resolved, on LineQubit 0..n-1) run from |0...0>:
+    {canonical {key: bits}: probability}.  Branches over the outcomes of every measurement (projective: later gates act on the
+    projected state); confusion map first, invert mask second, as Cirq records them.  No measurement at all: the vendor's
+    readout of all qubits under 'm'."""
+    psi0 = np.zeros(2 ** n, dtype=complex)
+    psi0[0] = 1.0
+    branches = [(psi0, ())]
+    any_meas = False
+    for op in circuit.all_operations():
+        ws = [q.x for q in op.qubits]
+        if isinstance(op.gate, cirq.MeasurementGate):
+            any_meas = True
+            key, inv, cm = cirq.measurement_key_name(op), op.gate.full_invert_mask(), op.gate.confusion_map
+            new = []
+            for psi, recs in branches:
+                t = psi.reshape((2,) * n)
+                for outcome in itertools.product((0, 1), repeat=len(ws)):
+                    sel = tuple(outcome[ws.index(k)] if k in ws else slice(None) for k in range(n))
+                    proj = np.zeros_like(t)
+                    proj[sel] = t[sel]
+                    if float(np.sum(np.abs(proj) ** 2)) < 1e-15:
+                        continue
+                    confused = [(tuple(outcome), 1.0)]
+                    for idx, mat in cm.items():
+                        mat = np.asarray(mat, dtype=float)
+                        nxt = []
+                        for bits, pr in confused:
+                            row = int(''.join(str(outcome[k]) for k in idx), 2)
+                            for val in range(mat.shape[1]):
+                                if mat[row][val] > 0:
+                                    nb = list(bits)
+                                    for i, k in enumerate(idx):
+                                        nb[k] = (val >> (len(idx) - 1 - i)) & 1
+                                    nxt.append((tuple(nb), pr * float(mat[row][val])))
+                        confused = nxt
+                    for bits, pr in confused:
+                        rec = tuple(int(b) ^ int(bool(m)) for b, m in zip(bits, inv))
+                        new.append((proj.reshape(-1) * math.sqrt(pr), recs + ((key, rec),)))
+            branches = new
+        else:
+            u = np_embed(cirq.unitary(op), ws, n)
+            branches = [(u @ psi, recs) for psi, recs in branches]
+    dist = {}
+    for psi, recs in branches:
+        if any_meas:
+            if len({k for k, _ in recs}) != len(recs):
+                raise Unrecognised('repeated measurement key')
+            dist[_res_key(dict(recs))] = dist.get(_res_key(dict(recs)), 0.0) + float(np.sum(np.abs(psi) ** 2))
+        else:
+            for j, a in enumerate(psi):
+                p = abs(a) ** 2
+                if p > 1e-15:
+                    r = _res_key({'m': [(j >> (n - 1 - k)) & 1 for k in range(n)]})
+                    dist[r] = dist.get(r, 0.0) + float(p)
+    return dist
+
+
+def aqt_job_dist(v1, nq):
+    """Readout distribution of a v1 job (gates, then exactly one MEASURE of all nq qubits) by AQT's definitions: {row: p}."""
+    if not v1 or v1[-1] != {'operation': 'MEASURE'} or sum(op.get('operation') == 'MEASURE' for op in v1) != 1:
+        raise Unrecognised('job without exactly one MEASURE at the end')
+    psi = np_prog_unitary([np_aqt_gate(op) for op in v1[:-1]], nq)[:, 0]
+    return {tuple((j >> (nq - 1 - k)) & 1 for k in range(nq)): float(abs(a) ** 2) for j, a in enumerate(psi) if abs(a) ** 2 > 1e-15}
+
+
+class _BasisAQT(FakeAQT):
+    """Stand-in vendor that keeps the posted job and answers with one row per basis outcome of the posted register, in order
+    (row i = outcome i, qubit 0 first), so that the conversion of every possible sample is seen in one call."""
+
+    def get(self, url, headers=None, **kw):
+        c = self.sub['payload']['circuits'][0]
+        n, reps = c['number_of_qubits'], c['repetitions']
+        rows = [[((i % 2 ** n) >> (n - 1 - k)) & 1 for k in range(n)] for i in range(reps)]
+        return _Resp({'job': {'job_id': 'job-7'}, 'response': {'status': 'finished', 'result': {'0': rows}}})
+
+
+def _tv(a, b):
+    return 0.5 * sum(abs(a.get(k, 0.0) - b.get(k, 0.0)) for k in set(a) | set(b))
+
+
+def _show_dist(d, k=4):
+    top = sorted(d.items(), key=lambda kv: -kv[1])[:k]
+    return '{' + ', '.join(f'{dict(r)}: {p:.3f}' for r, p in top) + (', ...' if len(d) > k else '') + '}'
+
+
+def aqt_meas_run(cirq, mods, rep):
+    """Submit the case through one entry.  -> ('refused', exception name) | ('dist', {result: probability}, shown payload, exact?)"""
+    from unittest import mock
+    import cirq_aqt.aqt_sampler as am
+    case, entry = rep['case'], rep['entry']
+    n = case['n']
+    circuit, res = aqt_circuit(cirq, case)
+    assert sorted(q.x for q in circuit.all_qubits()) == list(range(n)), 'generator: wires must be 0..n-1'
+    if entry == 'payload':
+        sampler = mods['cirq_aqt'].AQTSampler('workspace', 'resource', 'token')
+        try:
+            js = sampler._generate_json(circuit=circuit, param_resolver=res)
+            v1 = sampler._parse_legacy_circuit_json(js)
+        except Exception as e:
+            return ('refused', type(e).__name__)
+        return ('dist', {_res_key({'m': row}): p for row, p in aqt_job_dist(v1, n).items()}, js, True)
+    if entry == 'remote':
+        srv = _BasisAQT()
+        try:
+            with mock.patch.object(am, 'post', srv.post), mock.patch.object(am, 'get', srv.get), mock.patch.object(am.time, 'sleep', lambda s: None):
+                out = mods['cirq_aqt'].AQTSampler('workspace', 'resource', 'token').run_sweep(circuit, params=res, repetitions=2 ** n)
+        except Exception as e:
+            if srv.sub is not None:
+                raise                        # raising AFTER the job was posted is not a refusal
+            return ('refused', type(e).__name__)
+        c = srv.sub['payload']['circuits'][0]
+        if c['number_of_qubits'] != n or c['repetitions'] != 2 ** n or len(out) != 1:
+            raise Unrecognised(f'posted register {c["number_of_qubits"]} / repetitions {c["repetitions"]} for {n} qubits')
+        job = aqt_job_dist(c['quantum_circuit'], n)
+        ms = {k: np.asarray(v) for k, v in out[0].measurements.items()}
+        dist = {}
+        for i in range(2 ** n):
+            row = tuple((i >> (n - 1 - k)) & 1 for k in range(n))
+            if job.get(row, 0.0) > 0:
+                r = _res_key({k: v[i] for k, v in ms.items()})
+                dist[r] = dist.get(r, 0.0) + job[row]
+        return ('dist', dist, json.dumps(c['quantum_circuit']), True)
+    if entry == 'local':
+        state = np.random.get_state()
+        np.random.seed(rep['npseed'])
+        try:
+            out = mods['cirq_aqt'].AQTSamplerLocalSimulator(simulate_ideal=True).run_sweep(circuit, params=res, repetitions=AQT_LOCAL_REPS)
+        except Exception as e:
+            return ('refused', type(e).__name__)
+        finally:
+            np.random.set_state(state)
+        ms = {k: np.asarray(v) for k, v in out[0].measurements.items()}
+        dist = {}
+        for i in range(AQT_LOCAL_REPS):
+            r = _res_key({k: v[i] for k, v in ms.items()})
+            dist[r] = dist.get(r, 0.0) + 1.0 / AQT_LOCAL_REPS
+        return ('dist', dist, f'{AQT_LOCAL_REPS} samples of AQTSamplerLocalSimulator(simulate_ideal=True)', False)
+    raise KeyError(entry)
+
+
+def aqt_meas_oracle(cirq, mods, rep, out=None):
+    """(holds, outcome, detail): refused, or the returned results have the distribution of the circuit's own records."""
+    case = rep['case']
+    out = out or aqt_meas_run(cirq, mods, rep)
+    if out[0] == 'refused':
+        return True, out[1], ''
+    _, got, shown, exact = out
+    circuit, res = aqt_circuit(cirq, case)
+    want = circuit_record_dist(cirq, cirq.resolve_parameters(circuit, res), case['n'])
+    tv = _tv(got, want)
+    if exact:
+        holds = tv <= 1e-6
+    else:
+        holds = tv <= AQT_LOCAL_TV and all(want.get(r, 0.0) > 1e-9 for r in got)
+    return holds, 'accepted', (f'{shown[:260]} gives results {_show_dist(got)} but the circuit\'s own measurements mean {_show_dist(want)} '
+                               f'(total variation {tv:.3f})')
+
+
+def aqt_meas_class(cirq, case):
+    """Which way the measurements of the case differ from the vendor's readout (for the signature)."""
+    circuit, res = aqt_circuit(cirq, case)
+    ops = list(circuit.all_operations())
+    ms = [(i, op) for i, op in enumerate(ops) if isinstance(op.gate, cirq.MeasurementGate)]
+    if not ms:
+        return 'gates_only'
+    if any(set(op.qubits) & set(later.qubits) for i, op in ms for later in ops[i + 1:]):
+        return 'not_terminal'
+    if len(ms) > 1:
+        return 'several_keys'
+    op = ms[0][1]
+    if op.gate.confusion_map:
+        return 'confusion_map'
+    if any(op.gate.full_invert_mask()):
+        return 'invert_mask'
+    if [q.x for q in op.qubits] != list(range(case['n'])):
+        return 'subset' if len(op.qubits) < case['n'] else 'order'
+    if cirq.measurement_key_name(op) != 'm':
+        return 'key'
+    return 'readout_m'
+
+
+def shrink_aqt_meas(cirq, mods, rep):
+    """Drop operations one at a time while the case still fails (wires stay 0..n-1: a dropped gate leaves a Z behind if needed)."""
+    def fails(r):
+        try:
+            return not aqt_meas_oracle(cirq, mods, r)[0]
+        except Exception:
+            return False
+    case = rep['case']
+    progress = True
+    while progress and len(case['ops']) > 1:
+        progress = False
+        for i in range(len(case['ops'])):
+            ops = case['ops'][:i] + case['ops'][i + 1:]
+            if {w for o in ops for w in o['w']} != set(range(case['n'])):
+                continue
+            cand = dict(rep, case=dict(case, ops=ops, strat=case['strat'][:i] + case['strat'][i + 1:]))
+            if fails(cand):
+                rep, case, progress = cand, cand['case'], True
+                break
+    return rep
+
+
+def aqt_meas_term(cirq, case):
+    """The computational-basis skeleton of the case as a Gallina `list aitem`, or None if a gate is not a basis permutation."""
+    circuit, res = aqt_circuit(cirq, case)
+    items = []
+    for op in cirq.resolve_parameters(circuit, res).all_operations():
+        g, ws = op.gate, [q.x for q in op.qubits]
+        if isinstance(g, cirq.MeasurementGate):
+            if g.confusion_map:
+                return None
+            key = cirq.measurement_key_name(op)
+            items.append(f'AMeas [{"; ".join(str(ord(c)) + "%N" for c in key)}] {gates.nlist(ws)} {coq.blist(g.full_invert_mask())}')
+        elif isinstance(g, cirq.ZPowGate):
+            items.append('AFlip []')
+        elif isinstance(g, (cirq.PhasedXPowGate, cirq.XXPowGate)) and float(g.exponent) == int(g.exponent):
+            items.append(f'AFlip {gates.nlist(ws if int(g.exponent) % 2 else [])}')
+        else:
+            return None
+    return '[' + '; '.join(items) + ']'
+
+
+def report_aqt_meas(ctx, cirq, mods, rep, model_only=False, out=None):
+    try:
+        holds, outcome, detail = aqt_meas_oracle(cirq, mods, rep, out)
+    except Exception as e:
+        ctx.mark_broken('correspondence:aqt_meas', f'oracle failed on {json.dumps(rep)[:300]}: {type(e).__name__}: {e}')
+        return
+    if holds:
+        if model_only:
+            ctx.mark_broken('correspondence:aqt_meas', f'the sampler\'s answer ({outcome}) fails Vendor/AQTMeas.aqt_answer_ok (accepted: the circuit\'s '
+                            f'records; refused: only what holds a measurement) although the numeric oracle finds no fault: {json.dumps(rep)[:400]}')
+        return
+    small = shrink_aqt_meas(cirq, mods, rep)
+    _, _, detail = aqt_meas_oracle(cirq, mods, small)
+    circuit, _ = aqt_circuit(cirq, small['case'])
+    cls = aqt_meas_class(cirq, small['case'])
+    also = []
+    for e in AQT_MEAS_ENTRIES:
+        try:
+            if e != small['entry'] and not aqt_meas_oracle(cirq, mods, dict(small, entry=e))[0]:
+                also.append(e)
+        except Exception:
+            pass
+    _disagree(ctx, 'correspondence:aqt_meas', f'{small["entry"]}: {small["case"]["ops"]}', f'aqt_meas:{cls}',
+              f'AQT ({small["entry"]}{"; likewise " + ", ".join(also) if also else ""}) '
+              + ('returns results that do not mean the submitted circuit: ' if cls in ('gates_only', 'readout_m') else
+                 f'accepts a circuit whose measurements a job cannot express ({cls}) and alters it: ')
+              + f'{" ; ".join(str(op) for op in circuit.all_operations())[:300]} -> {detail}', small)
+
+
+def aqt_meas_stream(ctx, cirq, mods, mchecks, n_random):
+    rng = ctx.rng
+    cases = list(aqt_meas_fixed_cases()) + [gen_aqt_meas_case(rng) for _ in range(n_random)]
+    for case in cases:
+        cls = aqt_meas_class(cirq, case)
+        term = aqt_meas_term(cirq, case)
+        for entry in AQT_MEAS_ENTRIES:
+            rep = dict(kind='aqt_meas', case=case, entry=entry, npseed=rng.randrange(2 ** 31))
+            try:
+                out = aqt_meas_run(cirq, mods, rep)
+            except Exception as e:
+                _disagree(ctx, 'correspondence:aqt_meas', f'{type(e).__name__}: {e}', f'aqt_meas:raises:{type(e).__name__}',
+                          f'AQT ({entry}) neither refused nor ran {json.dumps(case["ops"])[:300]}: {type(e).__name__}: {e}', rep)
+                continue
+            ctx.count('aqt_meas', [entry, case['n'], case['ops']], cls != 'gates_only' or len(case['ops']) >= 2,
+                      sample=dict(entry=entry, layout=case['layout'], measurements=cls, ops=case['ops'][-3:], outcome=out[0] if out[0] == 'dist' else out[1]))
+            ctx.cov.setdefault('aqt_meas_outcomes', {}).setdefault(f'{cls}:{entry}', 'accepted' if out[0] == 'dist' else out[1])
+            report_aqt_meas(ctx, cirq, mods, rep, out=out)
+            # the basis-state cases judged inside Coq: accepted => the one result that came back is the circuit's records; refused => so does the model
+            if term is not None:
+                if out[0] == 'refused':
+                    impl = 'None'
+                elif len(out[1]) == 1 or (out[3] and max(out[1].values()) > 1 - 1e-9):
+                    (r, _), = [kv for kv in out[1].items() if kv[1] > 0.5]
+                    impl = 'Some [' + '; '.join(f'([{"; ".join(str(ord(c)) + "%N" for c in k)}], {coq.blist(bits)})' for k, bits in r) + ']'
+                else:
+                    impl = 'Some []'         # several results for a basis-state circuit: never what the model says
+                mchecks.append((f'aqt_answer_ok {case["n"]} {term} ({impl})', rep))
+
+
+def evaluate_aqt_meas(ctx, cirq, mods, mchecks, SH=200):
+    shards = []
+    for s0 in range(0, len(mchecks), SH):
+        part = mchecks[s0:s0 + SH]
+        text = PRE_M + 'Definition checks : list bool := [\n' + ';\n'.join(c[0] for c in part) + '].\nEval vm_compute in failing (fun b => b) checks.\n'
+        shards.append((f'c17m_{ctx.seed}_{s0 // SH}', text))
+    outs = coq.coq_eval_many(shards, workers=12)
+    for si, out in enumerate(outs):
+        for idx in coq.parse_nat_list(coq.parse_evals(out)[0]):
+            report_aqt_meas(ctx, cirq, mods, mchecks[si * SH + idx][1], model_only=True)
 
 
 # ---- Pasqal: the request body is the Cirq JSON of the resolved circuit; the response body is Cirq JSON of the result ----
@@ -1911,7 +2336,10 @@ class Hist:
             if st['j'] % 2:
                 c[len(c) - 1] = cirq.Moment(self.mops[mid])
             else:
-                c.batch_replace([(len(c) - 1, old, self.mops[mid])])
+                try:
+                    c.batch_replace([(len(c) - 1, old, self.mops[mid])])
+                except ValueError:                       # the new measurement overlaps a gate of that moment: Cirq refuses the edit
+                    return None, 'nothing'
             return [f'EdSet {L} {MEAS0 + mid}'], f'{"c[-1] = Moment" if st["j"] % 2 else "batch_replace measurement by "}({self.nm(MEAS0 + mid)})'
         if how in ('ins_e', 'ins_i', 'app_e'):
             if how == 'app_e' and not has_m:
@@ -2355,7 +2783,9 @@ def run(ctx):
                 'global shifts) on every subset of up to 4-5 LineQubits with terminal measurements under generated keys; '
                 'non-trivial = >= 2 operations sharing a wire and >= 1 non-diagonal gate; distinct by canonical case. Histories: per vendor, for every entry '
                 'point x every kind of in-place edit the fixed pattern submit / edit / submit-with-an-equal-resolver (every VERIF_SEED), plus random histories; '
-                'non-trivial = >= 2 submissions and >= 1 in-place edit')
+                'non-trivial = >= 2 submissions and >= 1 in-place edit. AQT measurements: for n = 1..3 x 15 layouts (no measurement / in the middle / first / '
+                'terminal under m or another key / subset / reversed order / invert mask / confusion map / two keys / measurement only) x basis-state and '
+                'superposition gates x 3 entries (every VERIF_SEED), plus random gate lists with 0-2 measurements anywhere')
     ctx.assumptions += ['vendor gate definitions transcribed in coq/Vendor/IonQ.v (trusted text)',
                         'adapters: JSON fields copied verbatim, angles turned into unit complex numbers by Python cos/sin',
                         'float instance tolerance 1e-9 (5e-7 when an exponent lies inside the serializer window)']
@@ -2380,9 +2810,12 @@ def run(ctx):
     pasqal_stream(ctx, cirq, mods, 40 if q else 500)
     hchecks = []
     history_stream(ctx, cirq, mods, hchecks, 24 if q else 400)
+    mchecks = []
+    aqt_meas_stream(ctx, cirq, mods, mchecks, 60 if q else 1500)
     evaluate(ctx, cirq, mods, checks)
     evaluate_discrete(ctx, cirq, mods, dchecks)
     evaluate_history(ctx, cirq, mods, hchecks)
+    evaluate_aqt_meas(ctx, cirq, mods, mchecks)
 
 
 def replay(ctx, data):
@@ -2411,7 +2844,7 @@ def replay(ctx, data):
         holds, small = payload_oracle(cirq, mods, data)
         print('batch payload holds:', holds, '' if holds else small)
         return holds
-    if kind in ('ionq_metadata', 'ionq_results', 'ionq_e2e', 'ionq_reject', 'aqt_payload', 'aqt_results', 'aqt_reject', 'pasqal', 'history'):
+    if kind in ('ionq_metadata', 'ionq_results', 'ionq_e2e', 'ionq_reject', 'aqt_payload', 'aqt_results', 'aqt_reject', 'aqt_meas', 'pasqal', 'history'):
         ok = replay_discrete(cirq, mods, data)
         return bool(ok)
     print('nothing to replay for', kind)
